@@ -89,6 +89,16 @@ def run(tier, seed):
                 cases += 1
                 if not src[sp.index:].startswith(tname):
                     viol.append({"id": "tag-span-off", "witness": f"tag:{tname}", "source": src, "got": f"{tname} at {sp.index} -> {src[sp.index:sp.index+10]!r}"})
+    # tag analysis of UNBALANCED sources: every reported span (unclosed, unexpected, unknown) starts at
+    # the reported name
+    for src in ("a {% endif %} b", "{% for x in y %}{% endfor %}{% endfor %}", "{% if a %}{% for x in y %}{% endif %}", "x {% nosuch %}{% endnosuch %}", "{% if a %}{% else %}{% when 1 %}{% endif %}{% endunless %}", "\n\n  {% endcase %}{% break %}"):
+        ta = env.analyze_tags_from_string(src, name="main")
+        for mname in ("unclosed_tags", "unexpected_tags", "unknown_tags", "all_tags", "tags"):
+            for tname, spans in getattr(ta, mname, {}).items():
+                for sp in spans:
+                    cases += 1
+                    if not src[sp.index:].startswith(tname):
+                        viol.append({"id": "tag-span-off", "witness": f"{mname}:{tname}", "source": src, "got": f"{tname} at {sp.index} -> {src[sp.index:sp.index+10]!r}"})
     combos = BROKEN + [a + b for a, b in itertools.product(BROKEN[:8] + ["ok {{ v }}\n"], BROKEN)] if tier == "thorough" else BROKEN + ["ok {{ v }}\n" + b for b in BROKEN] + [b + "\n{{ tail }}" for b in BROKEN]
     combos = combos + [c_.replace("\n", "\r\n") for c_ in combos if "\n" in c_] + ["a\r\nb\r\n" + b for b in BROKEN]
     for src in combos:
